@@ -71,3 +71,33 @@ claim(
     "ANALYSIS-ERROR. traces_validated_against_impl is 0: nothing is executed. Line granularity as the property "
     "states (an augmented assignment is one step). " + GENERIC_NOTE,
 )
+claim(
+    "C12",
+    "ownership typestate + CFG must-pass-through + guard dominance over CompositeFrontend (AST)",
+    "Decides the copy-on-write discipline (a shared child receives constraints only after _claim, claimed children "
+    "are stored back, neither side owns shared children after a branch, merge disowns, split hands out branches), "
+    "that every query establishes satisfiability of all groups before delegating to the merged child, that "
+    "UNSAT/UNKNOWN child answers propagate, plus the cache/forwarding/field rules shared with C11.",
+    "Not decided: correctness of the partition computed by _split_constraints on runtime data, model "
+    "re-absorption bookkeeping, the answers themselves. " + GENERIC_NOTE,
+)
+claim(
+    "C13",
+    "derived-cache/source pairing, guard dominance, polarity tables over Replacement/Hybrid frontends (AST)",
+    "Decides that the replacement lookup cache is always re-seeded from the replacement table, that solver answers "
+    "become replacements only under the opt-in flag (default off), that auto-replacements have the right polarity "
+    "and direction and VSA bounds are intersected, that constraints always reach the inner frontend, and that the "
+    "hybrid frontend uses the approximate side only when exact is False or in the opt-in approximate-first mode.",
+    "Not decided: that VSA answers over-approximate (C21-C25) and that constraint_to_si's bounds are implied by the "
+    "constraint. " + GENERIC_NOTE,
+)
+claim(
+    "C15",
+    "expression-tree shape and dependence checks on merge/combine/split (AST)",
+    "Decides that merge pairs condition i with solver i of [self, *others] and builds Or over And(condition, "
+    "*constraints) into a blank copy (ancestor.branch() + Or(conditions) with an ancestor), that combine adds every "
+    "constraint set to a blank copy and carries models only across disjoint variable sets, that split builds one "
+    "blank copy per independent group, returns all of them and restricts inherited models.",
+    "Not decided: the groups computed by _split_constraints (graph computation on runtime data) and composite merge "
+    "bookkeeping beyond pairing order. " + GENERIC_NOTE,
+)
